@@ -6,7 +6,7 @@
 
 extern "C" const char* __asan_default_options()
 {
-    return "handle_abort=1:detect_leaks=0:detect_container_overflow=1:allocator_may_return_null=0:malloc_context_size=12";
+    return "exitcode=77:handle_abort=1:detect_leaks=0:detect_container_overflow=1:allocator_may_return_null=0:malloc_context_size=12";
 }
 extern "C" const char* __ubsan_default_options() { return "print_stacktrace=1"; }
 
